@@ -33,6 +33,7 @@ type pathState struct {
 	decls  []string // "(declare-const ...)" in order
 	pc     []string
 	nsym   int
+	pathID int64
 	inputs []inputRec
 
 	steps      int64
@@ -95,7 +96,7 @@ func sanitize(name string) string {
 // fresh declares a new SMT constant.
 func (st *pathState) fresh(name string, sort string) string {
 	st.nsym++
-	n := fmt.Sprintf("v%d_%s", st.nsym, sanitize(name))
+	n := fmt.Sprintf("p%dv%d_%s", st.pathID, st.nsym, sanitize(name))
 	d := "(declare-const " + n + " " + sort + ")"
 	st.decls = append(st.decls, d)
 	st.sol.send(d)
